@@ -234,6 +234,9 @@ pub fn main_with(gen: impl Fn(&Args, &mut dyn FnMut(Value)), run: impl Fn(&Value
                     }
                 };
                 writeln!(out, "{}", json!({"obs": o.obs, "oracle": o.oracle, "sig": o.sig, "nt": o.nontrivial, "tags": o.tags})).unwrap();
+                // one flush per case: if the process dies on the NEXT case (abort, stack overflow), every answered case is on disk
+                // and the first unanswered line is exactly the culprit
+                out.flush().unwrap();
             }
         }
         other => {
